@@ -234,9 +234,9 @@ Section C07p.
   Variable cfg : config.
   Hypothesis Hpos : cfg_positive cfg.
 
-  Lemma pget_create_perm s src tid uid peers s' acts k : inv cfg s -> dl_inv s ->
+  Lemma pget_create_perm s src tid uid peers s' acts k c0 unk0 : inv cfg s -> dl_inv s ->
     h_create_perm cfg s src tid uid peers = (s', acts) ->
-    pget s' k = keep s' k (pupd cfg (now s') (EReq src tid (Build_cred None false NonceAbsent None None) (RqCreatePerm peers) false) acts (pget s) k).
+    pget s' k = keep s' k (pupd cfg (now s') (EReq src tid c0 (RqCreatePerm peers) unk0) acts (pget s) k).
   Proof.
     intros Hinv Hd H. pose proof Hinv as [Hnd _]. unfold pupd. unfold h_create_perm in H.
     assert (Same : (s', acts) = (s, []) \/ (exists x, (s', acts) = (s, [Error src MCreatePerm tid x false])) ->
@@ -263,4 +263,755 @@ Section C07p.
       rewrite (find_alloc_replace a a1 _ _ Ha Hnd Hc1), Hcl, E. unfold pget in *.
       destruct (find_alloc (fst k) (allocs s)); [|reflexivity]. exact (eq_sym Kp).
   Qed.
+  Lemma pget_channel_bind s src tid uid n p s' acts k c0 unk0 : inv cfg s -> dl_inv s ->
+    h_channel_bind cfg s src tid uid (APresent n) (Some (PeerOk p)) = (s', acts) ->
+    pget s' k = keep s' k (pupd cfg (now s') (EReq src tid c0 (RqChannelBind (APresent n) (Some (PeerOk p))) unk0) acts (pget s) k).
+  Proof.
+    intros Hinv Hd H. pose proof Hinv as [Hnd _]. unfold pupd. unfold h_channel_bind in H.
+    assert (Same : (s', acts) = (s, []) \/ (exists x, (s', acts) = (s, [Error src MChannelBind tid x false])) ->
+              pget s' k = keep s' k (match success_of MChannelBind acts with Some _ => if addr_eqb (fst k) src && (snd k =? ip p)%N then Some (now s' + cfg_perm_timeout cfg) else pget s k | None => pget s k end)).
+    { intros [E|(x & E)]; inversion E; subst; cbn [success_of find]; rewrite keep_pget; auto. }
+    destruct (owned_alloc s src uid) as [a|] eqn:Ho; [|apply Same; left; exact (eq_sym H)].
+    apply owned_alloc_some in Ho as (Ha & Hcl & _).
+    repeat (dmatch H; try (apply Same; right; eexists; exact (eq_sym H))).
+    all: inversion H; subst s' acts; clear H.
+    all: match goal with E : add_perm ?a1 ?i ?dl = (?a2, ?e2) |- _ =>
+           pose proof (add_perm_life _ _ _ _ _ E) as Hl; pose proof (add_perm_dl _ _ _ _ _ E) as [_ Hc2];
+           pose proof (add_perm_find _ _ _ _ _ (snd k) E) as Hfp end.
+    all: cbn [a_client set_chans a_perms] in Hc2, Hfp.
+    all: match goal with
+         | |- context [success_of MChannelBind (?e ++ [Life ?l; Success ?d ?m ?t ?at_])] =>
+             replace (e ++ [Life l; Success d m t at_]) with ((e ++ [Life l]) ++ [Success d m t at_]) by (rewrite <- app_assoc; reflexivity);
+             let HH := fresh in
+             assert (HH : Forall RelayGates.is_life (e ++ [Life l])) by (apply Forall_app; split; [exact Hl|repeat constructor]);
+             rewrite (success_of_life MChannelBind _ _ HH)
+         | |- context [success_of MChannelBind (?e ++ [Success _ _ _ _])] => rewrite (success_of_life MChannelBind e _ Hl)
+         end.
+    all: cbn [success_of find method_eqb].
+    all: unfold pget at 1; cbn [allocs set_allocs now]; rewrite (find_alloc_replace a _ _ _ Ha Hnd Hc2), Hcl.
+    all: rewrite (addr_eqb_sym (fst k) src); destruct (addr_eqb src (fst k)) eqn:E; cbn [andb].
+    all: unfold keep; rewrite present_find; cbn [allocs set_allocs now]; rewrite (find_alloc_replace a _ _ _ Ha Hnd Hc2), Hcl, E.
+    all: try (pose proof (keep_pget s k Hd) as Kp; unfold keep, pget in Kp |- *; rewrite present_find in Kp;
+              destruct (find_alloc (fst k) (allocs s)); [exact (eq_sym Kp)|reflexivity]).
+    all: rewrite Hfp.
+    all: repeat match goal with Hn : negb _ = false |- _ => apply Bool.negb_false_iff in Hn end.
+    all: match goal with Ec : addr_eqb (c_peer ?c) ?q = true |- _ => apply addr_eqb_eq in Ec; rewrite ?Ec | _ => idtac end.
+    all: rewrite (N.eqb_sym (snd k) (ip p)); destruct (ip p =? snd k)%N;
+         [destruct Hpos as (_ & Hp & _); destruct (Z.ltb_spec (now s) (now s + cfg_perm_timeout cfg)); [reflexivity|lia]|].
+    all: apply addr_eqb_eq in E; assert (Hf : find_alloc (fst k) (allocs s) = Some a) by (rewrite <- E, <- Hcl; apply find_alloc_in_nodup; assumption).
+    all: pose proof (keep_pget s k Hd) as Kp; unfold keep, pget in Kp; rewrite present_find, Hf in Kp; unfold pget; rewrite Hf.
+    all: destruct (option_map p_dl (find_perm (snd k) (a_perms a))); [|reflexivity]; cbn [andb] in Kp |- *; exact (eq_sym Kp).
+  Qed.
+  (* states that differ only in things the permission table does not see *)
+  Lemma keep_same s s' k : dl_inv s -> now s' = now s ->
+    (forall a, find_alloc (fst k) (allocs s) = Some a -> exists a', find_alloc (fst k) (allocs s') = Some a') ->
+    keep s' k (pget s k) = pget s k.
+  Proof.
+    intros Hd Hn Hpr. pose proof (keep_pget s k Hd) as Kp. unfold keep in *. rewrite present_find in *. rewrite Hn.
+    unfold pget in *. destruct (find_alloc (fst k) (allocs s)) as [a|] eqn:Hf; [|reflexivity].
+    destruct (Hpr a eq_refl) as (a' & ->). exact Kp.
+  Qed.
+
+  Lemma pget_removed s c0 k : inv cfg s -> dl_inv s ->
+    pget (set_allocs s (remove_alloc c0 (allocs s))) k = keep (set_allocs s (remove_alloc c0 (allocs s))) k (pget s k).
+  Proof.
+    intros [Hnd _] Hd. pose proof (keep_pget s k Hd) as Kp. unfold keep, pget in *. rewrite present_find in *. cbn [allocs set_allocs now].
+    rewrite (find_alloc_remove c0 _ (fst k) Hnd). destruct (addr_eqb c0 (fst k)).
+    - destruct (find_alloc (fst k) (allocs s)) as [a|]; [|reflexivity]. destruct (option_map p_dl (find_perm (snd k) (a_perms a))); reflexivity.
+    - destruct (find_alloc (fst k) (allocs s)); [exact (eq_sym Kp)|reflexivity].
+  Qed.
+
+  Lemma pget_step s e s' acts k : inv cfg s -> dl_inv s -> step cfg s e = (s', acts) ->
+    pget s' k = keep s' k (pupd cfg (now s') e acts (pget s) k).
+  Proof.
+    intros Hinv Hd Hs. pose proof Hinv as [Hnd Hall].
+    assert (Same : forall x, s' = s -> x = pget s k -> pget s' k = keep s' k x) by (intros x -> ->; rewrite keep_pget; auto).
+    destruct e as [src tid c r unk|src p d|src n d|relay from d|dt|relay].
+    - cbn [step] in Hs. destruct r as [tr lt fam df rp ep rt mt|lt fam|peers|num peer|].
+      + (* Allocate *)
+        cbn [pupd]. destruct unk; [inversion Hs; subst; apply Same; reflexivity|].
+        destruct (authenticate cfg s c) as [uid|code ch]; [|inversion Hs; subst; apply Same; reflexivity].
+        unfold h_allocate in Hs. repeat (dmatch Hs; try (inversion Hs; subst; apply Same; reflexivity)).
+        all: inversion Hs; subst; clear Hs.
+        all: rewrite keep_same; [| exact Hd | reflexivity |
+               intros a0 Hf0; cbn [allocs set_allocs add_rsv]; rewrite find_alloc_app, Hf0; eauto].
+        all: unfold pget; cbn [allocs set_allocs add_rsv]; rewrite find_alloc_app.
+        all: destruct (find_alloc (fst k) (allocs s)); [reflexivity|]; cbn [a_client a_perms]; destruct (addr_eqb _ (fst k)); reflexivity.
+      + (* Refresh *)
+        cbn [pupd]. destruct unk; [inversion Hs; subst; apply Same; reflexivity|].
+        destruct (authenticate cfg s c) as [uid|code ch]; [|inversion Hs; subst; apply Same; reflexivity].
+        unfold h_refresh in Hs. cbv zeta in Hs.
+        destruct (owned_alloc s src uid) as [a|] eqn:Ho; [|inversion Hs; subst; apply Same; reflexivity].
+        apply owned_alloc_some in Ho as (Ha & Hcl & _).
+        repeat (dmatch Hs; try (inversion Hs; subst; apply Same; reflexivity)).
+        all: inversion Hs; subst; clear Hs.
+        all: try (apply pget_removed; assumption).
+        all: rewrite keep_same; [| exact Hd | reflexivity |
+               intros a0 Hf0; cbn [allocs set_allocs];
+               match goal with |- context [replace_alloc ?x ?ll] => rewrite (find_alloc_replace a x ll _ Ha Hnd eq_refl) end;
+               destruct (addr_eqb (a_client a) (fst k)); eauto].
+        all: unfold pget; cbn [allocs set_allocs];
+             match goal with |- context [replace_alloc ?x ?ll] => rewrite (find_alloc_replace a x ll _ Ha Hnd eq_refl) end.
+        all: destruct (addr_eqb (a_client a) (fst k)) eqn:E; [|reflexivity].
+        all: apply addr_eqb_eq in E; rewrite <- E, (find_alloc_in_nodup _ _ Hnd Ha); reflexivity.
+      + destruct unk; [inversion Hs; subst; apply Same; reflexivity|].
+        destruct (authenticate cfg s c) as [uid|code ch]; [|inversion Hs; subst; apply Same; reflexivity].
+        eapply pget_create_perm; eauto.
+      + destruct unk; [inversion Hs; subst; apply Same; [reflexivity|cbn [pupd]; destruct num as [| |?]; try reflexivity; destruct peer as [[?|]|]; reflexivity]|].
+        destruct (authenticate cfg s c) as [uid|code ch];
+          [|inversion Hs; subst; apply Same; [reflexivity|cbn [pupd]; destruct num as [| |?]; try reflexivity; destruct peer as [[?|]|]; reflexivity]].
+        destruct num as [| |n]; [| |destruct peer as [[p|]|]; [eapply pget_channel_bind; eauto| |]].
+        all: cbn [pupd]; unfold h_channel_bind in Hs; destruct (owned_alloc s src uid); inversion Hs; subst; apply Same; reflexivity.
+      + destruct unk; inversion Hs; subst; apply Same; reflexivity.
+    - cbn [step] in Hs. apply h_send_spec in Hs as [-> _]. apply Same; reflexivity.
+    - cbn [step] in Hs. apply h_chandata_spec in Hs as [-> _]. apply Same; reflexivity.
+    - cbn [step] in Hs. apply h_peer_spec in Hs as [-> _]. apply Same; reflexivity.
+    - (* a tick *)
+      cbn [step pupd] in *. unfold h_tick in Hs. destruct (tick_allocs (now s + Z.max 0 dt) (allocs s)) as [l evs] eqn:Ht.
+      inversion Hs; subst; clear Hs. unfold keep, pget. rewrite present_find. cbn [allocs now].
+      rewrite (find_alloc_tick _ _ (fst k) Hnd _ _ Ht).
+      destruct (find_alloc (fst k) (allocs s)) as [a|] eqn:Hf; [|reflexivity].
+      apply find_alloc_some in Hf as [Ha _]. rewrite Forall_forall in Hall. destruct (Hall _ Ha) as (Hnp & _).
+      unfold tick_alloc. destruct (a_dl a <=? now s + Z.max 0 dt); cbn [fst].
+      * destruct (option_map p_dl (find_perm (snd k) (a_perms a))); reflexivity.
+      * cbn [a_perms set_chans set_perms]. rewrite (find_perm_filter _ _ _ Hnp).
+        destruct (find_perm (snd k) (a_perms a)) as [p|]; [|reflexivity]. cbn [option_map andb].
+        destruct (now s + Z.max 0 dt <? p_dl p); reflexivity.
+    - cbn [step pupd] in *. unfold h_relay_err in Hs.
+      destruct (find_relay relay (allocs s)) as [a|]; inversion Hs; subst; clear Hs; [apply pget_removed; assumption|apply Same; reflexivity].
+  Qed.
+  (* ---------- a client whose allocation was reported deleted in a step has none afterwards ---------- *)
+  Lemma deleted_clients_app a b : deleted_clients (a ++ b) = deleted_clients a ++ deleted_clients b.
+  Proof. unfold deleted_clients. apply flat_map_app. Qed.
+
+  Lemma add_perm_no_delete a i dl a' ev : add_perm a i dl = (a', ev) -> deleted_clients ev = [].
+  Proof. unfold add_perm. intros H. inversion H; subst. destruct (find_perm i (a_perms a)); reflexivity. Qed.
+
+  Lemma install_perms_no_delete dl peers : forall a a' ev, install_perms a dl peers = (a', ev) -> deleted_clients ev = [].
+  Proof.
+    induction peers as [|[p|] r IH]; cbn [install_perms]; intros a a' ev H.
+    - inversion H; reflexivity.
+    - destruct (add_perm a (ip p) dl) as [a1 e1] eqn:H1. destruct (install_perms a1 dl r) as [a2 e2] eqn:H2.
+      inversion H; subst. rewrite deleted_clients_app, (add_perm_no_delete _ _ _ _ _ H1), (IH _ _ _ H2). reflexivity.
+    - eapply IH; eauto.
+  Qed.
+
+  Lemma deleted_clients_softstate (c : addr) (ps : list perm) (cs : list chan) :
+    deleted_clients (map (fun p => Life (LPermDeleted c (p_ip p))) ps ++ map (fun x => Life (LChanDeleted c (c_peer x) (c_num x))) cs) = [].
+  Proof. rewrite deleted_clients_app. unfold deleted_clients. induction ps; cbn; [induction cs; cbn; auto|auto]. Qed.
+
+  Lemma tick_deleted_dl t l : forall l' evs, tick_allocs t l = (l', evs) ->
+    forall c, In c (deleted_clients evs) -> exists a, In a l /\ a_client a = c /\ a_dl a <= t.
+  Proof.
+    induction l as [|x l IH]; cbn [tick_allocs]; intros l' evs H c Hin; [inversion H; subst; destruct Hin|].
+    destruct (tick_alloc t x) as [oa e1] eqn:H1. destruct (tick_allocs t l) as [r e2] eqn:H2.
+    inversion H; subst; clear H. rewrite deleted_clients_app in Hin. apply in_app_iff in Hin as [Hin|Hin].
+    - unfold tick_alloc in H1. destruct (Z.leb_spec (a_dl x) t); inversion H1; subst; clear H1.
+      + rewrite deleted_clients_close in Hin. destruct Hin as [<-|[]]. exists x. split; [left; reflexivity|auto].
+      + rewrite deleted_clients_softstate in Hin. destruct Hin.
+    - destruct (IH _ _ eq_refl _ Hin) as (a & Ha & Hc & Hd). exists a. split; [right; exact Ha|auto].
+  Qed.
+
+  Lemma deleted_absent s e s' acts c : inv cfg s -> step cfg s e = (s', acts) -> In c (deleted_clients acts) ->
+    find_alloc c (allocs s') = None.
+  Proof.
+    intros [Hnd _] Hs Hin.
+    destruct e as [src tid c0 r unk|src p d|src n d|relay from d|dt|relay]; cbn [step] in Hs.
+    - destruct unk; [inversion Hs; subst; destruct Hin|].
+      destruct r as [tr lt fam df rp ep rt mt|lt fam|peers|num peer|]; try (inversion Hs; subst; destruct Hin; fail);
+        destruct (authenticate cfg s c0) as [uid|code ch]; try (inversion Hs; subst; destruct Hin; fail).
+      + unfold h_allocate in Hs. repeat (dmatch Hs; try (inversion Hs; subst; destruct Hin; fail)). all: inversion Hs; subst; destruct Hin.
+      + unfold h_refresh in Hs. cbv zeta in Hs.
+        destruct (owned_alloc s src uid) as [a|] eqn:Ho; [|inversion Hs; subst; destruct Hin].
+        repeat (dmatch Hs; try (inversion Hs; subst; destruct Hin; fail)).
+        all: inversion Hs; subst; clear Hs; try (destruct Hin; fail).
+        all: rewrite deleted_clients_app, deleted_clients_close in Hin; cbn in Hin; destruct Hin as [<-|[]].
+        all: apply owned_alloc_some in Ho as (_ & Hcl & _); rewrite Hcl; cbn [allocs set_allocs];
+             apply find_alloc_none; apply remove_alloc_gone; exact Hnd.
+      + unfold h_create_perm in Hs.
+        destruct (owned_alloc s src uid) as [a|]; [|inversion Hs; subst; destruct Hin].
+        destruct (perm_check cfg a peers); [inversion Hs; subst; destruct Hin|].
+        destruct peers as [|q peers]; [inversion Hs; subst; destruct Hin|].
+        destruct (install_perms a _ (q :: peers)) as [a' evs] eqn:Hi. inversion Hs; subst.
+        rewrite deleted_clients_app, (install_perms_no_delete _ _ _ _ _ Hi) in Hin. destruct Hin.
+      + unfold h_channel_bind in Hs.
+        destruct (owned_alloc s src uid) as [a|]; [|inversion Hs; subst; destruct Hin].
+        repeat (dmatch Hs; try (inversion Hs; subst; destruct Hin; fail)).
+        all: inversion Hs; subst; match goal with Ha : add_perm _ _ _ = (_, _) |- _ => apply add_perm_no_delete in Ha as Hnd2 end.
+        all: rewrite deleted_clients_app, Hnd2 in Hin; destruct Hin.
+    - apply h_send_spec in Hs as [_ [->|(a & q & dd & pm & -> & _)]]; destruct Hin.
+    - apply h_chandata_spec in Hs as [_ [->|(a & c1 & -> & _)]]; destruct Hin.
+    - apply h_peer_spec in Hs as [_ [->|(a & _ & _ & _ & [(c1 & _ & ->)|(_ & pm & _ & ->)])]]; destruct Hin.
+    - unfold h_tick in Hs. destruct (tick_allocs (now s + Z.max 0 dt) (allocs s)) as [l evs] eqn:Ht.
+      inversion Hs; subst; clear Hs. cbn [allocs]. rewrite (find_alloc_tick _ _ c Hnd _ _ Ht).
+      destruct (tick_deleted_dl _ _ _ _ Ht _ Hin) as (a & Ha & Hc & Hd). rewrite <- Hc, (find_alloc_in_nodup _ _ Hnd Ha).
+      unfold tick_alloc. destruct (Z.leb_spec (a_dl a) (now s + Z.max 0 dt)); [reflexivity|lia].
+    - unfold h_relay_err in Hs. destruct (find_relay relay (allocs s)) as [a|]; inversion Hs; subst; [|destruct Hin].
+      rewrite deleted_clients_close in Hin. destruct Hin as [<-|[]]. cbn [allocs set_allocs].
+      apply find_alloc_none. apply remove_alloc_gone. exact Hnd.
+  Qed.
+  Hypothesis Hsec : cfg_seconds cfg.
+
+  Lemma refresh0_absent s src tid c lt fam unk s' acts at_ : inv cfg s ->
+    step cfg s (EReq src tid c (RqRefresh lt fam) unk) = (s', acts) ->
+    success_of MRefresh acts = Some at_ -> lifetime_attr at_ = Some 0 -> find_alloc src (allocs s') = None.
+  Proof.
+    intros [Hnd _] Hs Hso Hl. cbn [step] in Hs. destruct unk; [inversion Hs; subst; discriminate|].
+    destruct (authenticate cfg s c) as [uid|code ch]; [|inversion Hs; subst; discriminate].
+    unfold h_refresh in Hs. cbv zeta in Hs.
+    destruct (owned_alloc s src uid) as [a|] eqn:Ho; [|inversion Hs; subst; discriminate].
+    apply owned_alloc_some in Ho as (_ & Hcl & _).
+    repeat (dmatch Hs; try (inversion Hs; subst; discriminate)).
+    all: inversion Hs; subst; clear Hs.
+    all: try (cbn [allocs set_allocs]; apply find_alloc_none; apply remove_alloc_gone; exact Hnd).
+    all: exfalso; cbn [success_of find method_eqb] in Hso; inversion Hso; subst at_; cbn [lifetime_attr find] in Hl; inversion Hl as [Hq].
+    all: match goal with Hz : (granted_lifetime cfg ?l =? 0) = false |- _ =>
+           apply Z.eqb_neq in Hz; pose proof (granted_lifetime_pos cfg l Hpos Hz) as Hgt;
+           pose proof (granted_whole cfg l Hsec) as Hw; rewrite Hq in Hw; cbn in Hw; lia end.
+  Qed.
+
+  (* ---------- the permission table chk_C07 keeps, as lookups ---------- *)
+  Definition gone_of (o : ostep) : list addr :=
+    deleted_clients (os_acts o) ++
+    match os_ev o with
+    | EReq src _ _ (RqRefresh _ _) _ =>
+        match success_of MRefresh (os_acts o) with
+        | Some at_ => match lifetime_attr at_ with Some 0 => [src] | _ => [] end
+        | None => [] end
+    | _ => [] end.
+
+  Lemma existsb_pkey k src ips :
+    existsb (fun i => pkey_eqb k (src, i)) ips = addr_eqb (fst k) src && existsb (fun i => (snd k =? i)%N) ips.
+  Proof.
+    induction ips as [|i r IH]; cbn [existsb]; [rewrite andb_false_r; reflexivity|]. rewrite IH. unfold pkey_eqb. cbn [fst snd].
+    destruct (addr_eqb (fst k) src); reflexivity.
+  Qed.
+
+  Lemma pkey_eqb_spec a b : pkey_eqb a b = true <-> a = b.
+  Proof.
+    unfold pkey_eqb. destruct a as [c i], b as [c' i']. cbn [fst snd]. rewrite andb_true_iff, addr_eqb_eq, N.eqb_eq.
+    split; [intros [-> ->]; reflexivity|intros E; inversion E; auto].
+  Qed.
+
+  Lemma c07_perm_lookup t o pe ce k : NoDup (map fst pe) ->
+    NoDup (map fst (fst (c07_update cfg t o pe ce))) /\
+    aget pkey_eqb k (fst (c07_update cfg t o pe ce)) =
+    match pupd cfg t (os_ev o) (os_acts o) (fun k => if existsb (addr_eqb (fst k)) (gone_of o) then None else aget pkey_eqb k pe) k with
+    | Some v => if t <? v then Some v else None
+    | None => None
+    end.
+  Proof.
+    intros Hnd. unfold c07_update. fold (gone_of o).
+    set (pe0 := filter (fun e => negb (existsb (addr_eqb (fst (fst e))) (gone_of o))) pe).
+    set (ce0 := filter (fun e => negb (existsb (addr_eqb (fst (fst e))) (gone_of o))) ce).
+    assert (N0 : NoDup (map fst pe0)) by (apply nodup_filter_keys; exact Hnd).
+    assert (G0 : forall k0, aget pkey_eqb k0 pe0 = if existsb (addr_eqb (fst k0)) (gone_of o) then None else aget pkey_eqb k0 pe).
+    { intros k0. unfold pe0. rewrite (aget_filter_keyP pkey_eqb pkey_eqb_spec (fun k1 => negb (existsb (addr_eqb (fst k1)) (gone_of o)))).
+      destruct (existsb _ _); reflexivity. }
+    assert (Fin : forall pe1 ce1 G, NoDup (map fst pe1) -> aget pkey_eqb k pe1 = G ->
+              NoDup (map fst (fst (filter (fun e => t <? snd e) pe1, filter (fun e : ckey * Z => t <? snd e) ce1))) /\
+              aget pkey_eqb k (fst (filter (fun e => t <? snd e) pe1, filter (fun e : ckey * Z => t <? snd e) ce1)) =
+              match G with Some v => if t <? v then Some v else None | None => None end).
+    { intros pe1 ce1 G N1 E1. cbn [fst]. split; [apply nodup_filter_keys; exact N1|].
+      rewrite (aget_filter_val pkey_eqb pkey_eqb_spec _ _ _ N1), E1. reflexivity. }
+    unfold pupd.
+    destruct (os_ev o) as [src tid c r unk|? ? ?|? ? ?|? ? ?|?|?]; try (apply Fin; [exact N0|apply G0]).
+    destruct r as [? ? ? ? ? ? ? ?|? ?|peers|num peer|]; try (apply Fin; [exact N0|apply G0]).
+    - destruct (success_of MCreatePerm (os_acts o)); [|apply Fin; [exact N0|apply G0]].
+      apply Fin; [apply (nodup_fold_aset pkey_eqb pkey_eqb_spec); exact N0|].
+      rewrite (aget_fold_aset pkey_eqb pkey_eqb_spec (fun i => (src, i))), existsb_pkey, G0. reflexivity.
+    - destruct num as [| |n]; try (apply Fin; [exact N0|apply G0]).
+      destruct peer as [[p|]|]; try (apply Fin; [exact N0|apply G0]).
+      destruct (success_of MChannelBind (os_acts o)); [|apply Fin; [exact N0|apply G0]].
+      apply Fin; [apply (nodup_aset pkey_eqb pkey_eqb_spec); exact N0|].
+      rewrite (aget_aset_g pkey_eqb pkey_eqb_spec), G0. unfold pkey_eqb. cbn [fst snd]. reflexivity.
+  Qed.
+  Lemma gone_absent s e s' acts c : inv cfg s -> step cfg s e = (s', acts) ->
+    existsb (addr_eqb c) (gone_of {| os_ev := e; os_acts := acts; os_allocs := listing_of s' |}) = true -> present s' c = false.
+  Proof.
+    intros Hinv Hs Hex. rewrite present_find. apply existsb_exists in Hex as (x & Hin & E). apply addr_eqb_eq in E. subst x.
+    unfold gone_of in Hin. cbn [os_ev os_acts] in Hin. apply in_app_iff in Hin as [Hin|Hin].
+    - rewrite (deleted_absent _ _ _ _ _ Hinv Hs Hin). reflexivity.
+    - destruct e as [src tid c0 r unk|? ? ?|? ? ?|? ? ?|?|?]; try (destruct Hin; fail).
+      destruct r as [? ? ? ? ? ? ? ?|lt fam|?|? ?|]; try (destruct Hin; fail).
+      destruct (success_of MRefresh acts) as [at_|] eqn:Hso; [|destruct Hin].
+      destruct (lifetime_attr at_) as [z|] eqn:Hl; [|destruct Hin].
+      destruct z; try (destruct Hin; fail). destruct Hin as [<-|[]].
+      rewrite (refresh0_absent _ _ _ _ _ _ _ _ _ _ Hinv Hs Hso Hl). reflexivity.
+  Qed.
+
+  Lemma livec_present s' c : existsb (fun a => addr_eqb (oa_client a) c) (listing_of s') = present s' c.
+  Proof.
+    rewrite present_find, listing_of_map. induction (allocs s') as [|x l IH]; cbn; [reflexivity|].
+    destruct (addr_eqb (a_client x) c); [reflexivity|exact IH].
+  Qed.
+
+  Definition pagree (pe : list (pkey * Z)) (s : state) : Prop :=
+    NoDup (map fst pe) /\ forall k, aget pkey_eqb k pe = pget s k.
+
+  Lemma pupd_gone t e acts (F1 F2 : pkey -> option Z) k s' :
+    (F1 k = F2 k \/ present s' (fst k) = false) ->
+    match pupd cfg t e acts F1 k with Some v => if present s' (fst k) && (now s' <? v) then Some v else None | None => None end =
+    match pupd cfg t e acts F2 k with Some v => if present s' (fst k) && (now s' <? v) then Some v else None | None => None end.
+  Proof.
+    intros [E|E].
+    - unfold pupd. destruct e as [src tid c r unk|? ? ?|? ? ?|? ? ?|?|?]; rewrite ?E; try reflexivity.
+      all: destruct r as [? ? ? ? ? ? ? ?|? ?|peers|num peer|]; rewrite ?E; try reflexivity.
+      all: try (destruct (success_of MCreatePerm acts); rewrite ?E; reflexivity).
+      all: destruct num as [| |n]; rewrite ?E; try reflexivity.
+      all: destruct peer as [[p|]|]; rewrite ?E; try reflexivity.
+      all: destruct (success_of MChannelBind acts); rewrite ?E; reflexivity.
+    - rewrite E. cbn [andb]. destruct (pupd cfg t e acts F1 k), (pupd cfg t e acts F2 k); reflexivity.
+  Qed.
+
+  Lemma perm_step s e s' acts pe ce : inv cfg s -> dl_inv s -> pagree pe s -> step cfg s e = (s', acts) ->
+    pagree (filter (fun x => existsb (fun a => addr_eqb (oa_client a) (fst (fst x))) (listing_of s'))
+              (fst (c07_update cfg (now s') {| os_ev := e; os_acts := acts; os_allocs := listing_of s' |} pe ce))) s'.
+  Proof.
+    intros Hinv Hd [Hnd Hag] Hs. set (o := {| os_ev := e; os_acts := acts; os_allocs := listing_of s' |}).
+    pose proof (fun k => c07_perm_lookup (now s') o pe ce k Hnd) as L.
+    split; [apply nodup_filter_keys; apply (proj1 (L ({| ip := 0; port := 0 |}, 0%N)))|].
+    intros k. rewrite (aget_filter_keyP pkey_eqb pkey_eqb_spec (fun k0 => existsb (fun a => addr_eqb (oa_client a) (fst k0)) (listing_of s'))).
+    rewrite livec_present, (proj2 (L k)), (pget_step _ _ _ _ k Hinv Hd Hs). unfold keep. cbn [os_ev os_acts o].
+    transitivity (match pupd cfg (now s') e acts (fun k0 => if existsb (addr_eqb (fst k0)) (gone_of o) then None else aget pkey_eqb k0 pe) k with
+                  | Some v => if present s' (fst k) && (now s' <? v) then Some v else None | None => None end).
+    - destruct (present s' (fst k)); [reflexivity|]. destruct (pupd _ _ _ _ _ _) as [v|]; [destruct (now s' <? v)|]; reflexivity.
+    - apply pupd_gone. destruct (existsb (addr_eqb (fst k)) (gone_of o)) eqn:Eg; [right; eapply gone_absent; eauto|left; apply Hag].
+  Qed.
+  (* ---------- the listing shows exactly the keys of the table ---------- *)
+  Lemma NoDup_app_disjoint {A} (l1 l2 : list A) : NoDup l1 -> NoDup l2 -> (forall x, In x l1 -> In x l2 -> False) -> NoDup (l1 ++ l2).
+  Proof.
+    induction l1 as [|x l1 IH]; cbn; [auto|]. intros H1 H2 Hd. inversion H1 as [|? ? Hx Hl]; subst. constructor.
+    - intros Hin. apply in_app_iff in Hin as [Hin|Hin]; [contradiction|]. apply (Hd x); auto.
+    - apply IH; auto. intros y Hy1 Hy2. apply (Hd y); auto.
+  Qed.
+
+  Definition pkeys (l : list alloc) : list pkey := flat_map (fun a => map (fun i => (a_client a, i)) (map p_ip (a_perms a))) l.
+
+  Lemma pkeys_listing l : flat_map (fun a => map (fun i => (oa_client a, i)) (oa_perms a)) (map obs_of l) = pkeys l.
+  Proof. unfold pkeys. induction l as [|x l IH]; cbn; [reflexivity|]. rewrite IH. reflexivity. Qed.
+
+  Lemma pkeys_in l c i : In (c, i) (pkeys l) <-> exists a, In a l /\ a_client a = c /\ In i (map p_ip (a_perms a)).
+  Proof.
+    unfold pkeys. rewrite in_flat_map. split.
+    - intros (a & Ha & Hin). apply in_map_iff in Hin as (j & E & Hj). inversion E; subst. eauto.
+    - intros (a & Ha & Hc & Hi). exists a. split; [exact Ha|]. apply in_map_iff. exists i. rewrite Hc. auto.
+  Qed.
+
+  Lemma pkeys_nodup l : NoDup (map a_client l) -> Forall (alloc_ok cfg) l -> NoDup (pkeys l).
+  Proof.
+    induction l as [|x l IH]; cbn; [constructor|]. intros Hnd Hall. inversion Hnd as [|? ? Hx Hl]; subst. inversion Hall as [|? ? Hok Hr]; subst.
+    unfold pkeys. cbn [flat_map]. fold (pkeys l). apply NoDup_app_disjoint.
+    - destruct Hok as (Hp & _). clear -Hp. induction (map p_ip (a_perms x)) as [|i r IH]; cbn; [constructor|].
+      inversion Hp as [|? ? Hi Hr]; subst. constructor; [|auto]. intros Hin. apply in_map_iff in Hin as (j & E & Hj). inversion E; subst. contradiction.
+    - apply IH; assumption.
+    - intros [c i] H1 H2. apply in_map_iff in H1 as (j & E & _). inversion E; subst.
+      apply pkeys_in in H2 as (a & Ha & Hc & _). apply Hx. rewrite <- Hc. apply in_map. exact Ha.
+  Qed.
+
+  Lemma pget_in s k : inv cfg s -> (pget s k <> None <-> In k (pkeys (allocs s))).
+  Proof.
+    intros [Hnd _]. destruct k as [c i]. unfold pget. cbn [fst snd]. rewrite pkeys_in. split.
+    - destruct (find_alloc c (allocs s)) as [a|] eqn:Hf; [|congruence]. intros H. apply find_alloc_some in Hf as [Ha Hc].
+      exists a. split; [exact Ha|split; [exact Hc|]]. destruct (find_perm i (a_perms a)) eqn:Hp; [|cbn in H; congruence].
+      apply find_perm_some in Hp as [Hp <-]. apply in_map. exact Hp.
+    - intros (a & Ha & Hc & Hi). rewrite <- Hc, (find_alloc_in_nodup _ _ Hnd Ha).
+      destruct (find_perm i (a_perms a)) eqn:Hp; [cbn; congruence|]. apply find_perm_none in Hp. contradiction.
+  Qed.
+
+  Lemma perm_keys_check pe s : inv cfg s -> pagree pe s ->
+    mset_eqb pkey_eqb (map fst pe) (flat_map (fun a => map (fun i => (oa_client a, i)) (oa_perms a)) (listing_of s)) = true.
+  Proof.
+    intros Hinv [Hnd Hag]. rewrite listing_of_map, pkeys_listing. apply mset_eqb_perm.
+    apply (keys_perm_of_aget pkey_eqb pkey_eqb_spec); [exact Hnd|destruct Hinv; apply pkeys_nodup; assumption|].
+    intros k. rewrite Hag. apply pget_in. exact Hinv.
+  Qed.
 End C07p.
+
+(* ====================== channels ====================== *)
+Definition cfind (k : N * addr) (l : list chan) : option chan := find (fun c => chanpair_eqb (c_num c, c_peer c) k) l.
+
+Lemma chanpair_eqb_spec a b : chanpair_eqb a b = true <-> a = b.
+Proof.
+  unfold chanpair_eqb. destruct a as [n p], b as [n' p']. cbn [fst snd]. rewrite andb_true_iff, N.eqb_eq, addr_eqb_eq.
+  split; [intros [-> ->]; reflexivity|intros E; inversion E; auto].
+Qed.
+
+Lemma ckey_eqb_spec a b : ckey_eqb a b = true <-> a = b.
+Proof.
+  unfold ckey_eqb. destruct a as [c k], b as [c' k']. cbn [fst snd]. rewrite andb_true_iff, addr_eqb_eq, chanpair_eqb_spec.
+  split; [intros [-> ->]; reflexivity|intros E; inversion E; auto].
+Qed.
+
+Lemma cfind_none_num n p l : ~ In n (map c_num l) -> cfind (n, p) l = None.
+Proof.
+  unfold cfind. induction l as [|x l IH]; cbn; [reflexivity|]. intros H. unfold chanpair_eqb at 1. cbn [fst snd].
+  destruct (N.eqb_spec (c_num x) n) as [E|E]; [exfalso; apply H; left; exact E|]. cbn [andb]. apply IH. intros Hin. apply H. right. exact Hin.
+Qed.
+
+Lemma cfind_refresh n dl l c : NoDup (map c_num l) -> find_chan_num n l = Some c -> forall k,
+  option_map c_dl (cfind k (refresh_chan n dl l)) = if chanpair_eqb (n, c_peer c) k then Some dl else option_map c_dl (cfind k l).
+Proof.
+  unfold cfind. induction l as [|x l IH]; cbn [find_chan_num refresh_chan]; [discriminate|]. intros Hnd Hf k.
+  inversion Hnd as [|? ? Hx Hl]; subst. destruct (N.eqb_spec (c_num x) n) as [E|E].
+  - inversion Hf; subst c. cbn [find c_num c_peer]. subst n.
+    destruct (chanpair_eqb (c_num x, c_peer x) k); reflexivity.
+  - cbn [find]. destruct (chanpair_eqb (c_num x, c_peer x) k) eqn:E2.
+    + apply chanpair_eqb_spec in E2. subst k. destruct (chanpair_eqb (n, c_peer c) (c_num x, c_peer x)) eqn:E3; [|reflexivity].
+      apply chanpair_eqb_spec in E3. inversion E3. congruence.
+    + apply IH; assumption.
+Qed.
+
+Lemma cfind_app l c k : cfind k (l ++ [c]) = match cfind k l with Some x => Some x | None => if chanpair_eqb (c_num c, c_peer c) k then Some c else None end.
+Proof. unfold cfind. induction l as [|x l IH]; cbn; [reflexivity|]. destruct (chanpair_eqb (c_num x, c_peer x) k); [reflexivity|exact IH]. Qed.
+
+Lemma cfind_filter t k l : NoDup (map c_num l) ->
+  cfind k (filter (live_chan t) l) = match cfind k l with Some c => if t <? c_dl c then Some c else None | None => None end.
+Proof.
+  unfold cfind. induction l as [|y l IH]; cbn [filter find map]; [reflexivity|]. intros H. inversion H as [|? ? Hy Hl]; subst.
+  unfold live_chan at 1. destruct (chanpair_eqb (c_num y, c_peer y) k) eqn:E.
+  - destruct (t <? c_dl y); cbn [find]; [rewrite E; reflexivity|]. rewrite (IH Hl).
+    apply chanpair_eqb_spec in E. subst k. fold (cfind (c_num y, c_peer y) l). rewrite (cfind_none_num _ _ _ Hy). reflexivity.
+  - destruct (t <? c_dl y); cbn [find]; [rewrite E|]; apply IH; exact Hl.
+Qed.
+
+Definition cget (s : state) (k : ckey) : option Z :=
+  match find_alloc (fst k) (allocs s) with
+  | Some a => option_map c_dl (cfind (snd k) (a_chans a))
+  | None => None
+  end.
+
+Definition cupd (cfg : config) (t : Z) (e : event) (acts : list action) (F : ckey -> option Z) (k : ckey) : option Z :=
+  match e with
+  | EReq src _ _ (RqChannelBind (APresent n) (Some (PeerOk p))) _ =>
+      match success_of MChannelBind acts with
+      | Some _ => if ckey_eqb k (src, (n, p)) then Some (t + cfg_chan_timeout cfg) else F k
+      | None => F k end
+  | _ => F k
+  end.
+
+Definition keepc (s' : state) (k : ckey) (o : option Z) : option Z :=
+  match o with Some v => if present s' (fst k) && (now s' <? v) then Some v else None | None => None end.
+
+Lemma keepc_cget s k : dl_inv s -> keepc s k (cget s k) = cget s k.
+Proof.
+  intros Hd. unfold keepc, cget. rewrite present_find. destruct (find_alloc (fst k) (allocs s)) as [a|] eqn:Hf; [|reflexivity].
+  destruct (cfind (snd k) (a_chans a)) as [c|] eqn:Hc; [|reflexivity]. cbn [option_map andb].
+  apply find_alloc_some in Hf as [Ha _]. unfold cfind in Hc. apply find_some in Hc as [Hc _].
+  unfold dl_inv in Hd. rewrite Forall_forall in Hd. destruct (Hd _ Ha) as (_ & _ & Hcl). specialize (Hcl _ Hc).
+  destruct (Z.ltb_spec (now s) (c_dl c)); [reflexivity|lia].
+Qed.
+
+Section C07c.
+  Variable cfg : config.
+  Hypothesis Hpos : cfg_positive cfg.
+  Hypothesis Hsec : cfg_seconds cfg.
+
+  Lemma add_perm_chans a i dl a' ev : add_perm a i dl = (a', ev) -> a_chans a' = a_chans a.
+  Proof. unfold add_perm. intros H. inversion H; reflexivity. Qed.
+
+  Lemma install_perms_chans dl peers : forall a a' ev, install_perms a dl peers = (a', ev) -> a_chans a' = a_chans a.
+  Proof.
+    induction peers as [|[p|] r IH]; cbn [install_perms]; intros a a' ev H.
+    - inversion H; reflexivity.
+    - destruct (add_perm a (ip p) dl) as [a1 e1] eqn:H1. destruct (install_perms a1 dl r) as [a2 e2] eqn:H2.
+      inversion H; subst. rewrite (IH _ _ _ H2). eapply add_perm_chans; eauto.
+    - eapply IH; eauto.
+  Qed.
+
+  Lemma keepc_same s s' k : dl_inv s -> now s' = now s ->
+    (forall a, find_alloc (fst k) (allocs s) = Some a -> exists a', find_alloc (fst k) (allocs s') = Some a') ->
+    keepc s' k (cget s k) = cget s k.
+  Proof.
+    intros Hd Hn Hpr. pose proof (keepc_cget s k Hd) as Kp. unfold keepc in *. rewrite present_find in *. rewrite Hn.
+    unfold cget in *. destruct (find_alloc (fst k) (allocs s)) as [a|] eqn:Hf; [|reflexivity].
+    destruct (Hpr a eq_refl) as (a' & ->). exact Kp.
+  Qed.
+
+  Lemma cget_removed s c0 k : inv cfg s -> dl_inv s ->
+    cget (set_allocs s (remove_alloc c0 (allocs s))) k = keepc (set_allocs s (remove_alloc c0 (allocs s))) k (cget s k).
+  Proof.
+    intros [Hnd _] Hd. pose proof (keepc_cget s k Hd) as Kp. unfold keepc, cget in *. rewrite present_find in *. cbn [allocs set_allocs now].
+    rewrite (find_alloc_remove c0 _ (fst k) Hnd). destruct (addr_eqb c0 (fst k)).
+    - destruct (find_alloc (fst k) (allocs s)) as [a|]; [|reflexivity]. destruct (option_map c_dl (cfind (snd k) (a_chans a))); reflexivity.
+    - destruct (find_alloc (fst k) (allocs s)); [exact (eq_sym Kp)|reflexivity].
+  Qed.
+
+  (* a replacement that leaves the channels alone *)
+  Lemma cget_replace_same s a a' k : inv cfg s -> dl_inv s -> In a (allocs s) -> a_client a' = a_client a -> a_chans a' = a_chans a ->
+    cget (set_allocs s (replace_alloc a' (allocs s))) k = keepc (set_allocs s (replace_alloc a' (allocs s))) k (cget s k).
+  Proof.
+    intros [Hnd _] Hd Ha Hc Hch.
+    rewrite keepc_same; [| exact Hd | reflexivity |
+      intros a0 Hf0; cbn [allocs set_allocs]; rewrite (find_alloc_replace a a' _ _ Ha Hnd Hc); destruct (addr_eqb (a_client a) (fst k)); eauto].
+    unfold cget. cbn [allocs set_allocs]. rewrite (find_alloc_replace a a' _ _ Ha Hnd Hc).
+    destruct (addr_eqb (a_client a) (fst k)) eqn:E; [|reflexivity].
+    apply addr_eqb_eq in E. rewrite <- E, (find_alloc_in_nodup _ _ Hnd Ha), Hch. reflexivity.
+  Qed.
+
+  Lemma cget_channel_bind s src tid uid n p s' acts k c0 unk0 : inv cfg s -> dl_inv s ->
+    h_channel_bind cfg s src tid uid (APresent n) (Some (PeerOk p)) = (s', acts) ->
+    cget s' k = keepc s' k (cupd cfg (now s') (EReq src tid c0 (RqChannelBind (APresent n) (Some (PeerOk p))) unk0) acts (cget s) k).
+  Proof.
+    intros Hinv Hd H. pose proof Hinv as [Hnd Hall]. unfold cupd. unfold h_channel_bind in H.
+    assert (Same : (s', acts) = (s, []) \/ (exists x, (s', acts) = (s, [Error src MChannelBind tid x false])) ->
+              cget s' k = keepc s' k (match success_of MChannelBind acts with Some _ => if ckey_eqb k (src, (n, p)) then Some (now s' + cfg_chan_timeout cfg) else cget s k | None => cget s k end)).
+    { intros [E|(x & E)]; inversion E; subst; cbn [success_of find]; rewrite keepc_cget; auto. }
+    destruct (owned_alloc s src uid) as [a|] eqn:Ho; [|apply Same; left; exact (eq_sym H)].
+    apply owned_alloc_some in Ho as (Ha & Hcl & _).
+    assert (Hok : alloc_ok cfg a) by (rewrite Forall_forall in Hall; auto). destruct Hok as (_ & Hnn & _).
+    repeat (dmatch H; try (apply Same; right; eexists; exact (eq_sym H))).
+    all: inversion H; subst s' acts; clear H.
+    all: match goal with E : add_perm ?a1 ?i ?dl = (?a2, ?e2) |- _ =>
+           pose proof (add_perm_life _ _ _ _ _ E) as Hl; pose proof (add_perm_dl _ _ _ _ _ E) as [_ Hc2];
+           pose proof (add_perm_chans _ _ _ _ _ E) as Hch end.
+    all: cbn [a_client set_chans a_chans] in Hc2, Hch.
+    all: match goal with
+         | |- context [success_of MChannelBind (?e ++ [Life ?l; Success ?d ?m ?t ?at_])] =>
+             replace (e ++ [Life l; Success d m t at_]) with ((e ++ [Life l]) ++ [Success d m t at_]) by (rewrite <- app_assoc; reflexivity);
+             let HH := fresh in
+             assert (HH : Forall RelayGates.is_life (e ++ [Life l])) by (apply Forall_app; split; [exact Hl|repeat constructor]);
+             rewrite (success_of_life MChannelBind _ _ HH)
+         | |- context [success_of MChannelBind (?e ++ [Success _ _ _ _])] => rewrite (success_of_life MChannelBind e _ Hl)
+         end.
+    all: cbn [success_of find method_eqb].
+    all: repeat match goal with Hn : negb _ = false |- _ => apply Bool.negb_false_iff in Hn end.
+    all: unfold cget at 1; cbn [allocs set_allocs now]; rewrite (find_alloc_replace a _ _ _ Ha Hnd Hc2), Hcl.
+    all: unfold keepc; rewrite present_find; cbn [allocs set_allocs now]; rewrite (find_alloc_replace a _ _ _ Ha Hnd Hc2), Hcl.
+    all: unfold ckey_eqb; cbn [fst snd]; rewrite (addr_eqb_sym (fst k) src); destruct (addr_eqb src (fst k)) eqn:E; cbn [andb].
+    all: try (pose proof (keepc_cget s k Hd) as Kp; unfold keepc, cget in Kp |- *; rewrite present_find in Kp;
+              destruct (find_alloc (fst k) (allocs s)); [exact (eq_sym Kp)|reflexivity]).
+    all: rewrite Hch.
+    all: apply addr_eqb_eq in E; assert (Hf : find_alloc (fst k) (allocs s) = Some a) by (rewrite <- E, <- Hcl; apply find_alloc_in_nodup; assumption).
+    all: pose proof (keepc_cget s k Hd) as Kp; unfold keepc, cget in Kp; rewrite present_find, Hf in Kp; unfold cget; rewrite Hf.
+    - (* the binding existed: refreshed *)
+      match goal with Hc : find_chan_num n (a_chans a) = Some ?c, Ep : addr_eqb (c_peer ?c) p = true |- _ =>
+        apply addr_eqb_eq in Ep; rewrite (cfind_refresh _ _ _ _ Hnn Hc), Ep end.
+      rewrite (proj2 (chanpair_eqb_spec (snd k) (n, p)) eq_refl) || idtac.
+      destruct (chanpair_eqb (n, p) (snd k)) eqn:E2.
+      + apply chanpair_eqb_spec in E2. rewrite <- E2. rewrite (proj2 (chanpair_eqb_spec (n, p) (n, p)) eq_refl).
+        destruct Hpos as (_ & _ & Hc3). destruct (Z.ltb_spec (now s) (now s + cfg_chan_timeout cfg)); [reflexivity|lia].
+      + assert (E3 : chanpair_eqb (snd k) (n, p) = false).
+        { destruct (chanpair_eqb (snd k) (n, p)) eqn:E4; [|reflexivity]. apply chanpair_eqb_spec in E4. rewrite E4 in E2.
+          rewrite (proj2 (chanpair_eqb_spec (n, p) (n, p)) eq_refl) in E2. discriminate. }
+        rewrite E3. destruct (option_map c_dl (cfind (snd k) (a_chans a))); [|reflexivity]. cbn [andb] in Kp |- *. exact (eq_sym Kp).
+    - (* a new binding *)
+      rewrite cfind_app. cbn [c_num c_peer c_dl].
+      destruct (chanpair_eqb (snd k) (n, p)) eqn:E2.
+      + apply chanpair_eqb_spec in E2. rewrite E2.
+        match goal with Hc : find_chan_num n (a_chans a) = None |- _ => apply find_chan_num_none in Hc; rewrite (cfind_none_num _ _ _ Hc) end.
+        rewrite (proj2 (chanpair_eqb_spec (n, p) (n, p)) eq_refl). cbn [option_map].
+        destruct Hpos as (_ & _ & Hc3). destruct (Z.ltb_spec (now s) (now s + cfg_chan_timeout cfg)); [reflexivity|lia].
+      + destruct (cfind (snd k) (a_chans a)) as [x|] eqn:Ec; cbn [option_map] in Kp |- *; [cbn [andb] in Kp |- *; exact (eq_sym Kp)|].
+        assert (E3 : chanpair_eqb (n, p) (snd k) = false).
+        { destruct (chanpair_eqb (n, p) (snd k)) eqn:E4; [|reflexivity]. apply chanpair_eqb_spec in E4. rewrite <- E4 in E2.
+          rewrite (proj2 (chanpair_eqb_spec (n, p) (n, p)) eq_refl) in E2. discriminate. }
+        rewrite E3. reflexivity.
+  Qed.
+End C07c.
+
+Section C07c2.
+  Variable cfg : config.
+  Hypothesis Hpos : cfg_positive cfg.
+  Hypothesis Hsec : cfg_seconds cfg.
+
+  Lemma cget_step s e s' acts k : inv cfg s -> dl_inv s -> step cfg s e = (s', acts) ->
+    cget s' k = keepc s' k (cupd cfg (now s') e acts (cget s) k).
+  Proof.
+    intros Hinv Hd Hs. pose proof Hinv as [Hnd Hall].
+    assert (Same : forall x, s' = s -> x = cget s k -> cget s' k = keepc s' k x) by (intros x -> ->; rewrite keepc_cget; auto).
+    destruct e as [src tid c r unk|src p d|src n d|relay from d|dt|relay].
+    - cbn [step] in Hs. destruct r as [tr lt fam df rp ep rt mt|lt fam|peers|num peer|].
+      + (* Allocate *)
+        cbn [cupd]. destruct unk; [inversion Hs; subst; apply Same; reflexivity|].
+        destruct (authenticate cfg s c) as [uid|code ch]; [|inversion Hs; subst; apply Same; reflexivity].
+        unfold h_allocate in Hs. repeat (dmatch Hs; try (inversion Hs; subst; apply Same; reflexivity)).
+        all: inversion Hs; subst; clear Hs.
+        all: rewrite keepc_same; [| exact Hd | reflexivity |
+               intros a0 Hf0; cbn [allocs set_allocs add_rsv]; rewrite find_alloc_app, Hf0; eauto].
+        all: unfold cget; cbn [allocs set_allocs add_rsv]; rewrite find_alloc_app.
+        all: destruct (find_alloc (fst k) (allocs s)); [reflexivity|]; cbn [a_client a_chans]; destruct (addr_eqb _ (fst k)); reflexivity.
+      + (* Refresh *)
+        cbn [cupd]. destruct unk; [inversion Hs; subst; apply Same; reflexivity|].
+        destruct (authenticate cfg s c) as [uid|code ch]; [|inversion Hs; subst; apply Same; reflexivity].
+        unfold h_refresh in Hs. cbv zeta in Hs.
+        destruct (owned_alloc s src uid) as [a|] eqn:Ho; [|inversion Hs; subst; apply Same; reflexivity].
+        apply owned_alloc_some in Ho as (Ha & Hcl & _).
+        repeat (dmatch Hs; try (inversion Hs; subst; apply Same; reflexivity)).
+        all: inversion Hs; subst; clear Hs.
+        all: try (apply (cget_removed cfg); assumption).
+        all: apply (cget_replace_same cfg s a); auto.
+      + (* CreatePermission: channels untouched *)
+        cbn [cupd]. destruct unk; [inversion Hs; subst; apply Same; reflexivity|].
+        destruct (authenticate cfg s c) as [uid|code ch]; [|inversion Hs; subst; apply Same; reflexivity].
+        unfold h_create_perm in Hs.
+        destruct (owned_alloc s src uid) as [a|] eqn:Ho; [|inversion Hs; subst; apply Same; reflexivity].
+        apply owned_alloc_some in Ho as (Ha & Hcl & _).
+        destruct (perm_check cfg a peers); [inversion Hs; subst; apply Same; reflexivity|].
+        destruct peers as [|q peers]; [inversion Hs; subst; apply Same; reflexivity|].
+        destruct (install_perms a (now s + cfg_perm_timeout cfg) (q :: peers)) as [a1 evs] eqn:Hi.
+        inversion Hs; subst; clear Hs. apply (cget_replace_same cfg s a); auto.
+        * apply (install_perms_dl _ _ _ _ _ Hi).
+        * apply (install_perms_chans _ _ _ _ _ Hi).
+      + destruct unk; [inversion Hs; subst; apply Same; [reflexivity|cbn [cupd]; destruct num as [| |?]; try reflexivity; destruct peer as [[?|]|]; reflexivity]|].
+        destruct (authenticate cfg s c) as [uid|code ch];
+          [|inversion Hs; subst; apply Same; [reflexivity|cbn [cupd]; destruct num as [| |?]; try reflexivity; destruct peer as [[?|]|]; reflexivity]].
+        destruct num as [| |n]; [| |destruct peer as [[p|]|]; [eapply cget_channel_bind; eauto| |]].
+        all: cbn [cupd]; unfold h_channel_bind in Hs; destruct (owned_alloc s src uid); inversion Hs; subst; apply Same; reflexivity.
+      + destruct unk; inversion Hs; subst; apply Same; reflexivity.
+    - cbn [step] in Hs. apply h_send_spec in Hs as [-> _]. apply Same; reflexivity.
+    - cbn [step] in Hs. apply h_chandata_spec in Hs as [-> _]. apply Same; reflexivity.
+    - cbn [step] in Hs. apply h_peer_spec in Hs as [-> _]. apply Same; reflexivity.
+    - (* a tick *)
+      cbn [step cupd] in *. unfold h_tick in Hs. destruct (tick_allocs (now s + Z.max 0 dt) (allocs s)) as [l evs] eqn:Ht.
+      inversion Hs; subst; clear Hs. unfold keepc, cget. rewrite present_find. cbn [allocs now].
+      rewrite (find_alloc_tick _ _ (fst k) Hnd _ _ Ht).
+      destruct (find_alloc (fst k) (allocs s)) as [a|] eqn:Hf; [|reflexivity].
+      apply find_alloc_some in Hf as [Ha _]. rewrite Forall_forall in Hall. destruct (Hall _ Ha) as (_ & Hnn & _).
+      unfold tick_alloc. destruct (a_dl a <=? now s + Z.max 0 dt); cbn [fst].
+      * destruct (option_map c_dl (cfind (snd k) (a_chans a))); reflexivity.
+      * cbn [a_chans set_chans set_perms]. rewrite (cfind_filter _ _ _ Hnn).
+        destruct (cfind (snd k) (a_chans a)) as [x|]; [|reflexivity]. cbn [option_map andb].
+        destruct (now s + Z.max 0 dt <? c_dl x); reflexivity.
+    - cbn [step cupd] in *. unfold h_relay_err in Hs.
+      destruct (find_relay relay (allocs s)) as [a|]; inversion Hs; subst; clear Hs; [apply (cget_removed cfg); assumption|apply Same; reflexivity].
+  Qed.
+
+  (* the channel table chk_C07 keeps, as lookups *)
+  Lemma c07_chan_lookup t o pe ce k : NoDup (map fst ce) ->
+    NoDup (map fst (snd (c07_update cfg t o pe ce))) /\
+    aget ckey_eqb k (snd (c07_update cfg t o pe ce)) =
+    match cupd cfg t (os_ev o) (os_acts o) (fun k => if existsb (addr_eqb (fst k)) (gone_of o) then None else aget ckey_eqb k ce) k with
+    | Some v => if t <? v then Some v else None
+    | None => None
+    end.
+  Proof.
+    intros Hnd. unfold c07_update. fold (gone_of o).
+    set (pe0 := filter (fun e => negb (existsb (addr_eqb (fst (fst e))) (gone_of o))) pe).
+    set (ce0 := filter (fun e => negb (existsb (addr_eqb (fst (fst e))) (gone_of o))) ce).
+    assert (N0 : NoDup (map fst ce0)) by (apply nodup_filter_keys; exact Hnd).
+    assert (G0 : forall k0, aget ckey_eqb k0 ce0 = if existsb (addr_eqb (fst k0)) (gone_of o) then None else aget ckey_eqb k0 ce).
+    { intros k0. unfold ce0. rewrite (aget_filter_keyP ckey_eqb ckey_eqb_spec (fun k1 => negb (existsb (addr_eqb (fst k1)) (gone_of o)))).
+      destruct (existsb _ _); reflexivity. }
+    assert (Fin : forall (pe1 : list (pkey * Z)) ce1 G, NoDup (map fst ce1) -> aget ckey_eqb k ce1 = G ->
+              NoDup (map fst (snd (filter (fun e => t <? snd e) pe1, filter (fun e : ckey * Z => t <? snd e) ce1))) /\
+              aget ckey_eqb k (snd (filter (fun e => t <? snd e) pe1, filter (fun e : ckey * Z => t <? snd e) ce1)) =
+              match G with Some v => if t <? v then Some v else None | None => None end).
+    { intros pe1 ce1 G N1 E1. cbn [snd]. split; [apply nodup_filter_keys; exact N1|].
+      rewrite (aget_filter_val ckey_eqb ckey_eqb_spec _ _ _ N1), E1. reflexivity. }
+    unfold cupd.
+    destruct (os_ev o) as [src tid c r unk|? ? ?|? ? ?|? ? ?|?|?]; try (apply Fin; [exact N0|apply G0]).
+    destruct r as [? ? ? ? ? ? ? ?|? ?|peers|num peer|]; try (apply Fin; [exact N0|apply G0]).
+    - destruct (success_of MCreatePerm (os_acts o)); apply Fin; first [exact N0|apply G0].
+    - destruct num as [| |n]; try (apply Fin; [exact N0|apply G0]).
+      destruct peer as [[p|]|]; try (apply Fin; [exact N0|apply G0]).
+      destruct (success_of MChannelBind (os_acts o)); [|apply Fin; [exact N0|apply G0]].
+      apply Fin; [apply (nodup_aset ckey_eqb ckey_eqb_spec); exact N0|].
+      rewrite (aget_aset_g ckey_eqb ckey_eqb_spec), G0. reflexivity.
+  Qed.
+
+  Definition cagree (ce : list (ckey * Z)) (s : state) : Prop :=
+    NoDup (map fst ce) /\ forall k, aget ckey_eqb k ce = cget s k.
+
+  Lemma cupd_gone t e acts (F1 F2 : ckey -> option Z) k s' :
+    (F1 k = F2 k \/ present s' (fst k) = false) ->
+    match cupd cfg t e acts F1 k with Some v => if present s' (fst k) && (now s' <? v) then Some v else None | None => None end =
+    match cupd cfg t e acts F2 k with Some v => if present s' (fst k) && (now s' <? v) then Some v else None | None => None end.
+  Proof.
+    intros [E|E].
+    - unfold cupd. destruct e as [src tid c r unk|? ? ?|? ? ?|? ? ?|?|?]; rewrite ?E; try reflexivity.
+      all: destruct r as [? ? ? ? ? ? ? ?|? ?|peers|num peer|]; rewrite ?E; try reflexivity.
+      all: destruct num as [| |n]; rewrite ?E; try reflexivity.
+      all: destruct peer as [[p|]|]; rewrite ?E; try reflexivity.
+      all: destruct (success_of MChannelBind acts); rewrite ?E; reflexivity.
+    - rewrite E. cbn [andb]. destruct (cupd cfg t e acts F1 k), (cupd cfg t e acts F2 k); reflexivity.
+  Qed.
+
+  Lemma chan_step s e s' acts pe ce : inv cfg s -> dl_inv s -> cagree ce s -> step cfg s e = (s', acts) ->
+    cagree (filter (fun x => existsb (fun a => addr_eqb (oa_client a) (fst (fst x))) (listing_of s'))
+              (snd (c07_update cfg (now s') {| os_ev := e; os_acts := acts; os_allocs := listing_of s' |} pe ce))) s'.
+  Proof.
+    intros Hinv Hd [Hnd Hag] Hs. set (o := {| os_ev := e; os_acts := acts; os_allocs := listing_of s' |}).
+    pose proof (fun k => c07_chan_lookup (now s') o pe ce k Hnd) as L.
+    split; [apply nodup_filter_keys; apply (proj1 (L ({| ip := 0; port := 0 |}, (0%N, {| ip := 0; port := 0 |}))))|].
+    intros k. rewrite (aget_filter_keyP ckey_eqb ckey_eqb_spec (fun k0 => existsb (fun a => addr_eqb (oa_client a) (fst k0)) (listing_of s'))).
+    rewrite livec_present, (proj2 (L k)), (cget_step _ _ _ _ k Hinv Hd Hs). unfold keepc. cbn [os_ev os_acts o].
+    transitivity (match cupd cfg (now s') e acts (fun k0 => if existsb (addr_eqb (fst k0)) (gone_of o) then None else aget ckey_eqb k0 ce) k with
+                  | Some v => if present s' (fst k) && (now s' <? v) then Some v else None | None => None end).
+    - destruct (present s' (fst k)); [reflexivity|]. destruct (cupd _ _ _ _ _ _) as [v|]; [destruct (now s' <? v)|]; reflexivity.
+    - apply cupd_gone. destruct (existsb (addr_eqb (fst k)) (gone_of o)) eqn:Eg; [right; eapply (gone_absent cfg Hpos Hsec); eauto|left; apply Hag].
+  Qed.
+
+  (* the listing shows exactly the keys of the channel table *)
+  Definition ckeys (l : list alloc) : list ckey := flat_map (fun a => map (fun c => (a_client a, (c_num c, c_peer c))) (a_chans a)) l.
+
+  Lemma ckeys_listing l : flat_map (fun a => map (fun c => (oa_client a, c)) (oa_chans a)) (map obs_of l) = ckeys l.
+  Proof. unfold ckeys. induction l as [|x l IH]; cbn; [reflexivity|]. rewrite IH, map_map. reflexivity. Qed.
+
+  Lemma ckeys_in l c np : In (c, np) (ckeys l) <-> exists a x, In a l /\ a_client a = c /\ In x (a_chans a) /\ (c_num x, c_peer x) = np.
+  Proof.
+    unfold ckeys. rewrite in_flat_map. split.
+    - intros (a & Ha & Hin). apply in_map_iff in Hin as (x & E & Hx). inversion E; subst. eauto 6.
+    - intros (a & x & Ha & Hc & Hx & E). exists a. split; [exact Ha|]. apply in_map_iff. exists x. rewrite Hc, E. auto.
+  Qed.
+
+  Lemma ckeys_nodup l : NoDup (map a_client l) -> Forall (alloc_ok cfg) l -> NoDup (ckeys l).
+  Proof.
+    induction l as [|x l IH]; cbn; [constructor|]. intros Hnd Hall. inversion Hnd as [|? ? Hx Hl]; subst. inversion Hall as [|? ? Hok Hr]; subst.
+    unfold ckeys. cbn [flat_map]. fold (ckeys l). apply NoDup_app_disjoint.
+    - destruct Hok as (_ & Hn & _). clear -Hn. induction (a_chans x) as [|c r IH]; cbn; [constructor|].
+      inversion Hn as [|? ? Hi Hr]; subst. constructor; [|auto]. intros Hin. apply in_map_iff in Hin as (y & E & Hy).
+      inversion E as [[En Ep]]. apply Hi. rewrite <- En. apply in_map. exact Hy.
+    - apply IH; assumption.
+    - intros [c np] H1 H2. apply in_map_iff in H1 as (y & E & _). inversion E; subst.
+      apply ckeys_in in H2 as (a & z & Ha & Hc & _). apply Hx. rewrite <- Hc. apply in_map. exact Ha.
+  Qed.
+
+  Lemma cget_in s k : inv cfg s -> (cget s k <> None <-> In k (ckeys (allocs s))).
+  Proof.
+    intros [Hnd _]. destruct k as [c np]. unfold cget. cbn [fst snd]. rewrite ckeys_in. split.
+    - destruct (find_alloc c (allocs s)) as [a|] eqn:Hf; [|congruence]. intros H. apply find_alloc_some in Hf as [Ha Hc].
+      destruct (cfind np (a_chans a)) as [x|] eqn:Hx; [|cbn in H; congruence]. unfold cfind in Hx. apply find_some in Hx as [Hx E].
+      apply chanpair_eqb_spec in E. exists a, x. auto.
+    - intros (a & x & Ha & Hc & Hx & E). rewrite <- Hc, (find_alloc_in_nodup _ _ Hnd Ha).
+      destruct (cfind np (a_chans a)) eqn:Hf; [cbn; congruence|]. unfold cfind in Hf.
+      apply (find_none _ _ Hf) in Hx. rewrite E, (proj2 (chanpair_eqb_spec np np) eq_refl) in Hx. discriminate.
+  Qed.
+
+  Lemma chan_keys_check ce s : inv cfg s -> cagree ce s ->
+    mset_eqb ckey_eqb (map fst ce) (flat_map (fun a => map (fun c => (oa_client a, c)) (oa_chans a)) (listing_of s)) = true.
+  Proof.
+    intros Hinv [Hnd Hag]. rewrite listing_of_map, ckeys_listing. apply mset_eqb_perm.
+    apply (keys_perm_of_aget ckey_eqb ckey_eqb_spec); [exact Hnd|destruct Hinv; apply ckeys_nodup; assumption|].
+    intros k. rewrite Hag. apply cget_in. exact Hinv.
+  Qed.
+
+  (* ---------- the whole specification along every model trace ---------- *)
+  Lemma chk_C07_model h : forall s pe ce, inv cfg s -> dl_inv s -> pagree pe s -> cagree ce s ->
+    chk_C07_from cfg (now s) pe ce (model_trace cfg s h) = true.
+  Proof.
+    induction h as [|e r IH]; intros s pe ce Hinv Hd Hp Hc; cbn [model_trace chk_C07_from]; [reflexivity|].
+    destruct (step cfg s e) as [s' acts] eqn:Hs. cbn [chk_C07_from os_ev os_acts os_allocs].
+    rewrite <- (now_step _ _ _ _ _ Hs).
+    pose proof (perm_step cfg Hpos Hsec _ _ _ _ _ ce Hinv Hd Hp Hs) as Hp'.
+    pose proof (chan_step _ _ _ _ pe _ Hinv Hd Hc Hs) as Hc'.
+    destruct (c07_update cfg (now s') {| os_ev := e; os_acts := acts; os_allocs := listing_of s' |} pe ce) as [pe1 ce1] eqn:Hu.
+    cbn [fst snd] in Hp', Hc'.
+    pose proof (inv_step _ _ _ _ _ Hinv Hs) as Hinv'.
+    cbv beta zeta. apply andb_true_iff. split; [apply andb_true_iff; split|].
+    - exact (perm_keys_check cfg _ _ Hinv' Hp').
+    - exact (chan_keys_check _ _ Hinv' Hc').
+    - apply IH; [exact Hinv'|eapply dl_inv_step; eauto|exact Hp'|exact Hc'].
+  Qed.
+
+  (* for every configuration with positive timeouts and a default lifetime of whole seconds, and every history:
+     reconstructed from the success responses alone - a successful CreatePermission restarts the full permission
+     timeout of every peer it names, a successful ChannelBind restarts the full channel timeout of that binding and the
+     permission timeout of its peer, the end of an allocation ends everything it owned - the permissions and channel
+     bindings whose timeout has not elapsed are, after EVERY step and at every instant, exactly the ones that exist *)
+  Theorem chk_C07_on_model ep h : chk_C07 (model_case cfg ep h) = true.
+  Proof.
+    unfold chk_C07, model_case. cbn [rc_cfg rc_steps]. change 0 with (now (init ep)).
+    apply chk_C07_model; [apply inv_init|constructor|split; [constructor|reflexivity]|split; [constructor|reflexivity]].
+  Qed.
+End C07c2.
